@@ -393,3 +393,113 @@ def gen_mixed(seed, weights=None, nmods=None, nsteps=None, opts=None, mode="loop
     driven_finish(sc, steps, rng=r)
     finalize_main(sc)
     return sc
+
+
+HOSTILE_W = dict(MIXED_W, retain=10, dereg=4, lifecycle=14, unsub=8, sub=10, tell=12, publish=12, broadcast=6, pill=4, fd=10)
+
+
+def gen_hostile(seed, mode="loop"):
+    """C04 'hostile_lifetime': targeted templates on top of a retain/deregister-heavy random mix"""
+    r = random.Random(seed * 31 + 7)
+    t = r.randrange(8)
+    if t >= 5:
+        sc = gen_mixed(seed, weights=HOSTILE_W, opts=dict(p_autofree=0.5, p_src_autofree=0.3, p_oneshot=0.3, task_slots=[]), mode=mode)
+        sc.note = "hostile mixed seed=%d" % seed
+        return sc
+    sc = Sc(mode, "hostile template %d seed=%d" % (t, seed))
+    driven_skeleton(sc)
+    A, B, C = 1, 2, 3
+    for s, n in ((A, "a"), (B, "b"), (C, "c")):
+        sc.mod(s, n, r.choice([0, 0, MOD_NAME_DUP, MOD_UD_AUTOFREE]), r.choice([7, 6, 4, 0]))
+        for k in ("eval", "start", "stop"):
+            sc.cb(s, k, "*", [], ret=1)
+        sc.main += [("reg", s), ("start", s)]
+    tp = sc.topic("alpha")
+    tre = sc.topic("^al.*")
+    steps = []
+
+    def send(frm, to, af=None):
+        af = r.random() < 0.5 if af is None else af
+        return ("tell", frm, to, sc.pay(af), PS_AUTOFREE if af else 0)
+
+    if t == 0:      # burst past the mailbox capacity, recipient running / paused / then stopped or deregistered
+        n = r.choice([8190, 8192, 8193, 8300, 9000])
+        variant = r.randrange(4)
+        pre = []
+        if variant in (1, 2):
+            pre.append(("pause", B))
+        ops = pre + [send(A, B, af=(i % 3 == 0)) for i in range(n)]
+        if variant == 2:
+            ops.append(("stop", B))
+        if variant == 3:
+            ops.append(("dereg", B))
+        steps.append(ops)
+        steps += [[] for _ in range(3)]
+        if variant == 1:
+            steps.append([("resume", B)])
+            steps += [[] for _ in range(3)]
+    elif t == 1:    # self deregistration / self stop / unsubscribe inside the handler with more mail in flight
+        sc.main += [("sub", B, tp, r.choice([0, SRC_DUP, SRC_AUTOFREE]), sc.ud()), ("sub", B, tre, 0, sc.ud())]
+        steps.append([send(A, B) for _ in range(r.randrange(2, 8))] + [("publish", A, tp, sc.pay(True), PS_AUTOFREE) for _ in range(3)])
+        act = r.choice([("dereg", -1), ("stop", -1), ("unsub", -1, tp), ("pause", -1), ("unsub", -1, tre)])
+        sc.cb(B, "evt", r.randrange(0, 2), [("evt_retain", 0), act, ("evt_retain", 1)])
+        steps += [[send(A, B)], [], [("start", B)], [send(C, B), ("publish", C, tp, sc.pay(), 0)], []]
+    elif t == 2:    # unsubscribe / resubscribe with other flags while a matching message is in flight
+        fl = r.choice([0, SRC_DUP, SRC_DUP | SRC_AUTOFREE])
+        sc.main += [("sub", B, tp, fl, sc.ud())]
+        ops = [("publish", A, tp, sc.pay(True), PS_AUTOFREE), ("publish", C, tp, sc.pay(), 0)]
+        ops.append(r.choice([("unsub", B, tp), ("sub", B, tp, fl ^ SRC_LOW, sc.ud()), ("sub", B, tp, fl, sc.ud()), ("sub", B, tp, SRC_DUP | SRC_HIGH, sc.ud())]))
+        steps.append(ops)
+        steps.append([("publish", A, tp, sc.pay(), 0)])
+        sc.cb(B, "evt", 0, [("evt_retain", 0)])
+        steps += [[], [("unsub", B, tp)], []]
+    elif t == 3:    # X stopped / deregistered / paused by Y while X has an event later (or earlier) in the same poll batch
+        sc.main += [("fd_open", 1, 0, 0), ("fd_open", 2, 0, 0), ("fd_open", 3, 1, 0)]
+        sc.main += [("fd_reg", A, 1, r.choice([0, SRC_ONESHOT]), sc.ud()), ("fd_reg", B, 2, r.choice([0, SRC_FD_AUTOCLOSE, SRC_DUP]), sc.ud()),
+                    ("fd_reg", C, 3, 0, sc.ud()), ("tmr_reg", B, 1000000, r.choice([0, SRC_ONESHOT]), sc.ud(), 0)]
+        act = r.choice(["stop", "dereg", "pause"])
+        for s in (A, B, C):
+            others = [x for x in (A, B, C) if x != s]
+            sc.cb(s, "evt", 0, [("evt_retain", 0)] + [(act, o) for o in others if r.random() < 0.7])
+        steps.append([("fd_write", 1), ("fd_write", 2), ("fd_write", 3), send(C, A), send(C, B), ("sleep", 1500)])
+        steps += [[], [("start", A), ("start", B), ("resume", A), ("resume", B)], [("fd_write", 1), ("fd_write", 2)], []]
+    else:           # events of every kind retained past their source, module and context
+        sc.main += [("fd_open", 1, 1, 0), ("fd_reg", A, 1, r.choice([SRC_ONESHOT, SRC_ONESHOT | SRC_FD_AUTOCLOSE, SRC_DUP | SRC_ONESHOT, 0]), sc.ud()),
+                    ("tmr_reg", A, 1000000, r.choice([0, SRC_ONESHOT, SRC_AUTOFREE]), sc.ud(), 0), ("sgn_reg", A, 10, r.choice([0, SRC_ONESHOT]), sc.ud()),
+                    ("sub", A, tp, r.choice([0, SRC_ONESHOT, SRC_DUP | SRC_AUTOFREE]), sc.ud())]
+        for n in range(6):
+            sc.cb(A, "evt", n, [("evt_retain", 0)])
+        steps.append([("fd_write", 1), ("raise", 10), ("publish", B, tp, sc.pay(True), PS_AUTOFREE), ("sleep", 2500)])
+        steps.append([])
+        steps.append([r.choice([("stop", A), ("dereg", A), ("pill", B, A), ("pause", A)])])
+        steps += [[], [("evt_check", 0), ("evt_check", 1)], []]
+    driven_finish(sc, steps, rng=r)
+    finalize_main(sc)
+    return sc
+
+
+def gen_task_hostile(seed, mode="loop"):
+    """known finding reproducer: a task still running when its module is stopped / paused / deregistered"""
+    r = random.Random(seed)
+    sc = Sc(mode, "task outlives its source seed=%d" % seed)
+    driven_skeleton(sc)
+    sc.mod(1, "tasker", 0, 0)
+    sc.main += [("reg", 1), ("start", 1)]
+    steps = [[("task_reg", 1, 1, 0, 0, 3000, 7), r.choice([("stop", 1), ("dereg", 1), ("pause", 1)])], [("sleep", 5000)], []]
+    driven_finish(sc, steps, rng=r)
+    finalize_main(sc)
+    return sc
+
+
+def gen_restart_in_stop(seed, mode="loop"):
+    """known finding reproducer: on_stop() restarts its own module while the module is being deregistered"""
+    r = random.Random(seed)
+    sc = Sc(mode, "restart from own on_stop during deregistration seed=%d" % seed)
+    driven_skeleton(sc)
+    sc.mod(1, "phoenix", 0, 4)
+    sc.cb(1, "stop", "*", [("start", -1)])
+    sc.main += [("reg", 1), ("start", 1), ("tmr_reg", 1, 1000000, 0, 5, 0)]
+    steps = [[], [("dereg", 1)], [], []]
+    driven_finish(sc, steps, rng=r)
+    finalize_main(sc)
+    return sc
